@@ -39,7 +39,9 @@ EXPLANATION = ('PARTIAL (level other). Proved in Coq, unbounded over expressions
                'lemmas, cast and comparison exactness, short-circuit; refuted theorems with witnesses for the typing '
                'defects per data model, the compound-assignment defect and the unsigned-int-as-i16 map. NOT proved: the '
                'tree -> CFG linearisation (emit_fn is only compared with the real IR and executed), parser, declarations, '
-               'pointers, arrays, structs, calls, statements (differential execution against gcc only).')
+               'arrays, structs, calls, statements (differential execution against gcc only); pointer +/- integer is proved only as '
+               'the gen_binop instruction sequence (c01_ptr_arith_exact), pointer comparison / difference / ++ / [] are validated '
+               'by the systematic pointer family (5 element types x 10 index types x 12 forms) only.')
 TRUSTED = ['hand models Model/CGenExpr.v (elab, low, emit_fn) — compared per run with the real c_to_ir output (structure) '
            'and with the real IR executed by tools/irsem_py.py (values)',
            'Spec/IRSem.v arithmetic (eval_binop/eval_unop/eval_cast/eval_const/eval_cond) as the meaning of IR; the tree '
@@ -490,7 +492,7 @@ def target(march):
                                                       u16.upper(), al['int'], al['long'])
     _T[march] = {'arch': arch, 'dm': dm, 'cgen': cgen, 'sz': sz, 'al': al, 'irt': irt, 'u16': u16,
                  'cctx': '(mkctx %d %d %d %s)' % (sz['int'], sz['long'], sz['llong'], 'true' if little else 'false'),
-                 'cfg': (arch.info.get_size('ptr'), 65536, 16777216)}
+                 'cfg': (arch.info.get_size('ptr'), 65536, 16777216) if arch.info.get_size('ptr') > 2 else (2, 512, 16384)}
     return _T[march]
 
 
@@ -525,8 +527,10 @@ def compile_c(march, src):
     """-> (ir module | None, error text)"""
     from ppci.api import c_to_ir
     from ppci.common import CompilerError
+    import contextlib
     try:
-        return c_to_ir(io.StringIO(src), target(march)['arch']), ''
+        with contextlib.redirect_stdout(io.StringIO()):       # ppci/lang/c/printer.py prints debug lines
+            return c_to_ir(io.StringIO(src), target(march)['arch']), ''
     except CompilerError as ex:
         return None, 'CompilerError: %s' % ex.msg
     except RecursionError:
@@ -812,8 +816,12 @@ class ProgGen:
             elif r < 0.70:
                 self.tmp += 1
                 i = 'i%d' % self.tmp
-                out.append('for (int %s = 0; %s < %d; %s++) { %s }' % (i, i, rng.randint(1, 5), i,
-                                                                      ' '.join(self.stmts(vars_ + [i], depth - 1, 2))))
+                jump = ''
+                if rng.random() < 0.4:
+                    jump = 'if (%s) %s; ' % (self.expr(vars_ + [i], 1), rng.choice(['continue', 'break', 'continue']))
+                out.append('for (int %s = 0; %s < %d; %s++) { %s %s%s }' % (
+                    i, i, rng.randint(1, 5), i, ' '.join(self.stmts(vars_ + [i], depth - 1, 1)), jump,
+                    ' '.join(self.stmts(vars_ + [i], depth - 1, 1))))
             elif r < 0.80:
                 self.tmp += 1
                 k = 'k%d' % self.tmp
@@ -828,8 +836,12 @@ class ProgGen:
             else:
                 self.tmp += 1
                 k = 'd%d' % self.tmp
-                out.append('{ int %s = 0; do { %s %s++; } while (%s < %d); }' % (k, ' '.join(self.stmts(vars_, depth - 1, 1)),
-                                                                              k, k, rng.randint(1, 3)))
+                jump = ''
+                if rng.random() < 0.6:
+                    jump = 'if (%s) %s; ' % (self.expr(vars_ + [k], 1), rng.choice(['continue', 'continue', 'break']))
+                out.append('{ int %s = 0; do { %s++; %s %s%s } while (%s < %d); }' % (
+                    k, k, ' '.join(self.stmts(vars_, depth - 1, 1)), jump, ' '.join(self.stmts(vars_, depth - 1, 1)),
+                    k, rng.randint(1, 3)))
         return out
 
     def program(self):
@@ -852,7 +864,26 @@ class ProgGen:
             '}']), (ta, tb)
 
 
+DO_WHILE_CONTINUE_BROKEN = {}
+
+
+def probe_do_while_continue(ctx):
+    """fixed witness: `continue` in a do-while must reach the condition (re-executed on every run)"""
+    src = 'int f(int n) { int i = 0; do { i++; if (i >= 1) continue; } while (i < n); return i; }'
+    mod, err = compile_c('x86_64', src)
+    r = run_ir('x86_64', mod, [0], fuel=300) if mod is not None else err
+    bad = not (isinstance(r, OkV) and r.v == 1)
+    DO_WHILE_CONTINUE_BROKEN['v'] = bad
+    if bad:
+        ctx.violation({'fn': 'c_to_ir program', 'class': 'do-while-continue', 'key': 'program/do-while-continue',
+                       'target': 'x86_64', 'source': src, 'args': [0], 'expected': 1,
+                       'actual': r.v if isinstance(r, OkV) else repr(r),
+                       'how_to_replay': 'm = ppci.api.c_to_ir(io.StringIO(source), "x86_64"); '
+                                        'tools/irsem_py.run_main(m, "f", [0], 300, (8, 65536, 16777216))'})
+
+
 def statements(ctx, n):
+    probe_do_while_continue(ctx)
     from concurrent.futures import ThreadPoolExecutor
     st = {'generated': 0, 'programs': 0, 'ub_or_rejected_by_gcc': 0, 'ppci_compile_error': 0, 'compared': 0, 'agree': 0,
           'ir_ub': 0}
@@ -897,7 +928,10 @@ def statements(ctx, n):
                         continue
                     if not isinstance(r, OkV):
                         st['ir_ub'] += 1
-                    ctx.violation({'fn': 'c_to_ir program', 'key': 'program', 'target': march, 'source': src,
+                    cls = 'do-while-continue' if (DO_WHILE_CONTINUE_BROKEN.get('v') and
+                                                  re.search(r'do \{[^}]*continue', src)) else None
+                    ctx.violation({'fn': 'c_to_ir program', 'key': 'program/%s' % cls, 'class': cls, 'target': march,
+                                   'source': src,
                                    'args': [a, b], 'expected': e, 'actual': r.v if isinstance(r, OkV) else repr(r),
                                    'how_to_replay': 'save `source` as t.c; m = ppci.api.c_to_ir(open("t.c"), "%s"); '
                                                     'tools/irsem_py.run_main(m, "f", args, 4000, (ptr_size, 65536, 16777216)); '
@@ -905,6 +939,211 @@ def statements(ctx, n):
                     break
     ctx.cov['distinct_nontrivial'] += st['agree']
     ctx.cov['stages']['statements_vs_gcc'] = st
+    return st
+
+
+# ------------------------------------------------------------------ (d) pointer arithmetic family (validation)
+# `ET arr[80]`, base pointer p = &arr[40]; every form is a function `long long fK(IT n)`; the expected value is
+# computed by the independent evaluator below (element index arithmetic only) and, on LP64, also by gcc -O0.
+PTR_ELEMS = [('schar', 'signed char', None), ('short', 'short', None), ('int', 'int', None), ('llong', 'long long', None),
+             ('struct', 'struct S', 'x')]
+PTR_BASE, PTR_LEN = 40, 80
+PTR_FORMS = [   # (name, body; @<lv>@ = the value of element lvalue lv, expected as a function of n, domain of n)
+    ('p+n', 'return @<*(p + n)>@;', lambda n: ('elem', PTR_BASE + n), 'any'),
+    ('n+p', 'return @<*(n + p)>@;', lambda n: ('elem', PTR_BASE + n), 'any'),
+    ('p-n', 'return @<*(p - n)>@;', lambda n: ('elem', PTR_BASE - n), 'any'),
+    ('*((p-n)+1)', 'return @<*((p - n) + 1)>@;', lambda n: ('elem', PTR_BASE - n + 1), 'any'),
+    ('p+=n', 'p += n; return @<*p>@;', lambda n: ('elem', PTR_BASE + n), 'any'),
+    ('p-=n', 'p -= n; return @<*p>@;', lambda n: ('elem', PTR_BASE - n), 'any'),
+    ('p[n]', 'return @<p[n]>@;', lambda n: ('elem', PTR_BASE + n), 'any'),
+    ('arr[n]', 'return @<arr[n]>@;', lambda n: ('elem', n), 'nonneg'),
+    ('ptrdiff', 'return (long long)((p + n) - p) * 100 + (long long)(p - (p - n));', lambda n: ('num', n * 100 + n), 'any'),
+    ('&a[i]-&a[j]', 'return (long long)(&arr[60] - &arr[n]) * 100 + (long long)(&arr[n] - &arr[7]);',
+     lambda n: ('num', (60 - n) * 100 + (n - 7)), 'nonneg'),
+    ('compare', 'ET *q = p + n; return (q > p) + 2 * (q == p) + 4 * (q <= p) + 8 * (q != p) + 16 * (p - n < p) + 32 * (q >= arr);',
+     lambda n: ('num', int(n > 0) + 2 * int(n == 0) + 4 * int(n <= 0) + 8 * int(n != 0) + 16 * int(n > 0) + 32), 'any'),
+    ('++/--', 'ET *q = p + n; q++; ++q; q--; ET *r = q++; ET *t = --q; return @<*r>@ * 1000 + @<*t>@ + (long long)(q - p) * 1000000;',
+     lambda n: ('mix', n), 'any'),
+]
+
+
+def ptr_values(dm, it):
+    vs = [0, 1, 3, 7, 31]
+    if S.signed(dm, it):
+        vs += [-1, -5, -31]
+    return [v for v in vs if S.fits(dm, it, v)]
+
+
+def ptr_elem_value(dm, et, idx):
+    return S.convert(dm, {'schar': 'char', 'struct': 'int'}.get(et, et), idx * 3 + 1)
+
+
+def ptr_expected(dm, et, form, n):
+    kind, x = form[2](n)
+    if kind == 'elem':
+        return ptr_elem_value(dm, et, x)
+    if kind == 'num':
+        return x
+    # '++/--': q = p+n+1 after q++,++q,q--; r = q (then q = p+n+2); t = --q = p+n+1
+    return ptr_elem_value(dm, et, PTR_BASE + n + 1) * 1000 + ptr_elem_value(dm, et, PTR_BASE + n + 1) + (n + 1) * 1000000
+
+
+def ptr_source(et, it, forms, prefix='f'):
+    cet = dict((a, b) for a, b, _ in PTR_ELEMS)[et]
+    fld = dict((a, c) for a, _, c in PTR_ELEMS)[et]
+    lines = []
+    if et == 'struct':
+        lines.append('struct S { int x; char y; long long z; };')
+    lines.append('%s arr[%d];' % (cet, PTR_LEN))
+    init = 'arr[j].x = j * 3 + 1; arr[j].y = 1; arr[j].z = j;' if fld else 'arr[j] = (%s)(j * 3 + 1);' % cet
+    for k, form in enumerate(forms):
+        body = form[1].replace('ET', cet)
+        body = re.sub(r'@<(.*?)>@', (r'(long long)(\1).x' if fld else r'(long long)(\1)'), body)
+        lines.append('long long %s%d(%s n) { for (int j = 0; j < %d; j++) { %s } %s *p = &arr[%d]; %s }'
+                     % (prefix, k, S.C_T[it], PTR_LEN, init, cet, PTR_BASE, body))
+    return '\n'.join(lines)
+
+
+def ptr_class(march, et, it, form, n):
+    """known root causes of a pointer-arithmetic mismatch (None = unexplained -> VIOLATION)"""
+    tg = target(march)
+    dm = tg['dm']
+    esize = {'schar': 1, 'short': 2, 'int': tg['sz']['int'], 'llong': 8, 'struct': None}[et]
+    if form[0] in ('p+n', 'n+p', 'p-n', '*((p-n)+1)', 'ptrdiff', 'compare', '++/--') and et != 'schar':
+        # gen_binop scales the index in the IR type of the index: n * esize must fit there
+        big = esize if esize else 16
+        if any(not S.fits(dm, it, m * big) for m in (n, -n) if S.fits(dm, it, m)):
+            return 'index-scaled-in-index-type'
+    return None
+
+
+def ptr_variant():
+    """True when gen_binop scales the index in the pointer type (fixes/C01-pointer-index-scaling.diff)"""
+    mod, _ = compile_c('x86_64', 'long long *f(long long *p, signed char n) { return p + n; }')
+    from ppci import ir
+    for b in mod.functions[0].blocks:
+        for i in b.instructions:
+            if isinstance(i, ir.Binop) and i.operation == '*':
+                return i.ty is ir.ptr
+    return None
+
+
+def ptr_correspondence(ctx, full):
+    """Model/CGenPtr.ptr_arith vs the real IR of `ET *f(ET *p, IT n) { return p OP n; }`"""
+    fixed = ptr_variant()
+    st = {'variant': 'scale_in_ptr' if fixed else 'scale_in_index', 'cases': 0}
+    if fixed is None:
+        ctx.failed_stages.append(('ptr_correspondence', 'no multiplication found in the IR of p + n'))
+        return
+    cc, recs = [], []
+    k = 0
+    for march in TARGETS:
+        tg = target(march)
+        dm = tg['dm']
+        a = 4096
+        for (et, cet, esize) in [('schar', 'signed char', 1), ('short', 'short', 2), ('int', 'int', tg['sz']['int']),
+                                 ('llong', 'long long', 8)]:
+            for it in S.TYPES:
+                for op in ('+', '-'):
+                    k += 1
+                    if not full and k % 3:
+                        continue
+                    mod, err = compile_c(march, '%s *f(%s *p, %s n) { return p %s n; }' % (cet, cet, S.C_T[it], op))
+                    if mod is None:
+                        ctx.failed_stages.append(('ptr_correspondence', 'c_to_ir failed: ' + err))
+                        continue
+                    for n in [v for v in (1, 31, 127, -1, -100, 255, 40000) if S.fits(dm, it, v)][:4]:
+                        real = run_ir(march, mod, [a, n])
+                        cc.append(('ptr_arith (mk_cfg %d %d %d) %s %s %s %d %s %d'
+                                   % (tg['cfg'] + ('true' if fixed else 'false', 'true' if op == '-' else 'false',
+                                                   tg['irt'][it].upper(), a, S.coq_z(n), esize)), real))
+                        recs.append((march, cet, it, op, n))
+    st['cases'] = len(cc)
+    bad = ctx.run_cases('cptr', ['Spec.IRSyntax', 'Spec.IRSem', 'Model.CGenExpr', 'Model.CGenPtr'], cc, shard=400)
+    if bad:
+        ctx.failed_stages.append(('ptr_correspondence', 'Model/CGenPtr.v disagrees with the real IR on %d cases, first %r'
+                                  % (len(bad), recs[bad[0]])))
+    ctx.cov['stages']['ptr_correspondence'] = st
+
+
+def pointers(ctx, full):
+    st = {'modules': 0, 'runs': 0, 'agree': 0, 'compile_error': 0, 'mismatch_known_class': 0, 'mismatch': 0}
+    gcc_parts, gcc_calls, gcc_exp = ['#include <stdio.h>', 'struct S { int x; char y; long long z; };'], [], []
+    combos = [(m, et, it) for m in TARGETS for (et, _c, _f) in PTR_ELEMS for it in S.TYPES]
+    if not full:
+        # quick: every (element, index type) pair on one target (rotating), every form, all values
+        combos = [c for i, c in enumerate((m, et, it) for (et, _c, _f) in PTR_ELEMS for it in S.TYPES for m in TARGETS)
+                  if i % 3 == (i // 3) % 3]
+        combos += [('x86_64', et, it) for (et, _c, _f) in PTR_ELEMS for it in ('uchar', 'ushort', 'uint')
+                   if ('x86_64', et, it) not in combos]
+    for (march, et, it) in combos:
+        tg = target(march)
+        dm = tg['dm']
+        forms = PTR_FORMS
+        src = ptr_source(et, it, forms)
+        mod, err = compile_c(march, src)
+        if mod is None:
+            st['compile_error'] += 1
+            ctx.violation({'fn': 'c_to_ir pointer arithmetic', 'key': 'ptr-compile/%s' % err[:40], 'target': march,
+                           'source': src, 'expected': 'compiles', 'actual': err,
+                           'how_to_replay': 'ppci.api.c_to_ir(io.StringIO(source), "%s")' % march})
+            continue
+        st['modules'] += 1
+        gm = None
+        if march == 'x86_64':
+            gm = st['modules']
+            gsrc = ptr_source(et, it, forms, prefix='g%d_' % gm).replace('arr', 'arr%d' % gm)
+            gcc_parts.append(gsrc.replace('struct S { int x; char y; long long z; };\n', ''))
+        for k, form in enumerate(forms):
+            for n in ptr_values(dm, it):
+                if form[3] == 'nonneg' and n < 0:
+                    continue
+                exp = ptr_expected(dm, et, form, n)
+                if gm is not None:
+                    gcc_calls.append('printf("%%lld\\n", g%d_%d(%s));' % (gm, k, S.c_lit(dm, it, n)))
+                    gcc_exp.append(exp)
+                r = run_ir(march, mod, [n], fname='f%d' % k, fuel=600)
+                st['runs'] += 1
+                ctx.cov['evaluations'] += 1
+                if isinstance(r, OkV) and r.v == exp:
+                    st['agree'] += 1
+                    continue
+                cls = ptr_class(march, et, it, form, n)
+                rec = {'fn': 'c_to_ir pointer arithmetic', 'form': form[0], 'elem': et, 'index_type': it, 'target': march,
+                       'dm': DMNAME[march], 'source': src, 'function': 'f%d' % k, 'args': [n], 'expected': exp,
+                       'actual': r.v if isinstance(r, OkV) else repr(r),
+                       'how_to_replay': 'm = ppci.api.c_to_ir(io.StringIO(source), "%s"); tools/irsem_py.run_main(m, '
+                                        '"f%d", [%d], 600, (ptr_size, 65536, 16777216))' % (march, k, n)}
+                if cls:
+                    st['mismatch_known_class'] += 1
+                    rec['class'] = cls
+                    rec['key'] = 'ptr/' + cls
+                else:
+                    st['mismatch'] += 1
+                    rec['key'] = 'ptr/%s/%s' % (form[0], 'unsigned' if not S.signed(dm, it) else 'signed')
+                ctx.violation(rec)
+    # valid C that the front-end rejects (re-executed on every run; known findings while they fail)
+    for cls, src in [('index-of-rvalue-pointer', 'int arr[8]; int f(int n) { int *p = &arr[4]; return (p - n)[1]; }')]:
+        mod, err = compile_c('x86_64', src)
+        if mod is None:
+            ctx.violation({'fn': 'c_to_ir pointer arithmetic', 'class': cls, 'key': 'ptr/' + cls, 'target': 'x86_64',
+                           'source': src, 'expected': 'compiles', 'actual': err,
+                           'how_to_replay': 'ppci.api.c_to_ir(io.StringIO(source), "x86_64")'})
+    ctx.cov['distinct_nontrivial'] += st['agree']
+    # the independent evaluator against gcc (LP64)
+    if gcc_calls:
+        # one array per module copy: rename happened above by index; simpler: compile each copy separately in one file
+        out, err = gcc_run('\n'.join(gcc_parts) + '\nint main(void) {\n' + '\n'.join(gcc_calls) + '\nreturn 0; }')
+        if out is None:
+            st['gcc'] = err[:200]
+        else:
+            got = [int(x) for x in out.split()]
+            st['gcc_values'] = len(got)
+            st['gcc_agree'] = sum(1 for a, b in zip(got, gcc_exp) if a == b)
+            if got != gcc_exp:
+                ctx.failed_stages.append(('ptr_evaluator_vs_gcc', 'the pointer evaluator disagrees with gcc on %d values'
+                                          % (len(gcc_exp) - st['gcc_agree'])))
+    ctx.cov['stages']['pointer_arithmetic'] = st
     return st
 
 
@@ -934,7 +1173,7 @@ def run(ctx):
         wall[name] = round(time.time() - t0, 1)
         t0 = time.time()
     regen(ctx)
-    ok, _ = ctx.build(['Proofs/C01_expr.vo', 'Proofs/C01_refuted.vo', 'Model/CGenExprRun.vo'])
+    ok, _ = ctx.build(['Proofs/C01_expr.vo', 'Proofs/C01_refuted.vo', 'Proofs/C01_ptr.vo', 'Model/CGenExprRun.vo'])
     if ok:
         ctx.check_props('Props/C01.v')
     lap('coq')
@@ -966,6 +1205,10 @@ def run(ctx):
     lap('search')
     statements(ctx, 400 if deep else 30)
     lap('statements')
+    if ok:
+        ptr_correspondence(ctx, deep)
+    pointers(ctx, deep)
+    lap('pointers')
     if ctx.failed_stages and ctx.quick():
         search(ctx, None, n_extra=1500)
         lap('deep_search')
@@ -984,7 +1227,11 @@ MANIFEST = {
             'and short-circuit theorems. Refuted with replayed witnesses (known findings): get_common_type/promote give a '
             'non-C type (uint x long on ILP32, ulong x llong on LP64, unsigned short on 16-bit int), op= is computed in the '
             'type of the left operand, unsigned int is lowered to signed i16 on 16-bit targets. Statements, arrays, '
-            'structs, calls and globals are only validated by differential execution against gcc -O0.',
+            'structs, calls and globals are only validated by differential execution against gcc -O0. Pointer arithmetic: the '
+            'scaling sequence of p + n / p - n is proved exact (c01_ptr_arith_exact, unbounded over element size, index type and '
+            'value) for the code with fixes/C01-pointer-index-scaling.diff and refuted for the code before it (index scaled in '
+            'the index type); p[n], p += n, ptr - ptr, pointer comparisons, ++/-- are validated by a systematic family '
+            '(every element type x every index type x 12 forms, independent evaluator cross-checked with gcc).',
     'note': 'trusted: Coq kernel; hand models of CSemantics typing and CCodeGenerator lowering (compared per run with the real '
             'IR structurally and by execution); Spec/IRSem arithmetic as IR meaning, the tree runner for the CFG fragments '
             '(linearisation not proved, only compared/executed); the reading of C11 (cross-checked with gcc); irsem_py, '
